@@ -98,7 +98,7 @@ P.fn(FI + 'expandDef', name='expandDef', params=dict(definition='list[Any]', par
               'and not isnone(params[DN()[j + 1]]), all(result[OFF(j) + q] is params[DN()[j + 1]][q] for q in range(len(params[DN()[j + 1]])))) '
               'for j in range(%s))' % (N, N)],
      raises={'ValueError': 'True'},
-     allocates=True, modifies=[], locals={'[]': 'list[Any]'},
+     allocates=True, modifies=[], locals={'[]': 'list[Any]'}, solver_ms=120000,
      calls={'iter': 'iter_list', 'int': 'int_', 'BeginGroup': 'BeginGroup', 'EndGroup': 'EndGroup'},
      loops={0: Loop(inv=BASE + ['not SEC(definition.pos)', 'len(output) == OFF(definition.pos)', 'not (previous == "ifx")'] + placed('definition.pos'),
                     at_end=['unfold(OFF(definition.pos)) == OFF(definition.pos)', 'unfold(OFF(definition.pos - 1)) == OFF(definition.pos - 1)',
